@@ -153,6 +153,79 @@ fn filter_shapes(shown_df: &str, shown: u32, pi_bits: u32) -> (Vec<(String, Opti
     (dffs, acfs)
 }
 
+/// One filter configuration held for a whole STREAM of records, as in the decoder loop (the exploration above builds a
+/// fresh configuration for every record): lists of 1 to 40 addresses, fleets of up to 24 aircraft heard in many
+/// orders, every call judged by membership. Whatever the filter remembers between records (a cache of recent
+/// decisions, a sorted copy made at first use) is exercised here.
+fn streams(rep: &Report) -> u64 {
+    let fleet: Vec<u32> = (0..24u32).map(|i| 0x738500 + 0x000111 * i + ((i % 3) << 20)).collect();
+    let kinds: [fn(u32) -> Vec<u8>; 4] = [
+        |a| df17(5, a, &me_bds09_gs(1, 0, 0, 0, 0, 100, 1, 200, 0, 0, 10, 0, 5), 0),
+        |a| df4_5(4, 0, 0, 0, ac13_q(30000), a),
+        |a| df11(5, a, 0),
+        |a| df20_21(20, 0, 0, 0, ac13_q(30000), &[0u8; 7], a),
+    ];
+    let mut calls = 0u64;
+    for m in [1usize, 3, 8, 9, 12, 17, 40] {
+        // the list: every second aircraft of the fleet, padded with addresses that nobody uses
+        let mut list: Vec<u32> = fleet.iter().step_by(2).cloned().take(m).collect();
+        let mut pad = 0x0a0000u32;
+        while list.len() < m {
+            list.push(pad);
+            pad += 0x313;
+        }
+        for dff in [None, Some(vec!["17".to_string(), "4".to_string(), "11".to_string(), "20".to_string()])] {
+            let mut cfg = serde_json::Map::new();
+            cfg.insert("aircraft_filter".into(), json!(list.iter().map(|a| format!("{a:06x}")).collect::<Vec<_>>()));
+            if let Some(v) = &dff {
+                cfg.insert("df_filter".into(), json!(v));
+            }
+            let f: Filters = match serde_json::from_value(Value::Object(cfg)) {
+                Ok(f) => f,
+                Err(e) => {
+                    rep.violation("harness:filters", format!("Filters from its configuration form: {e}"), json!({}));
+                    return calls;
+                }
+            };
+            // orders: for every n, the first n aircraft once each, the n-th again, the first again, all of them in
+            // reverse, and the n-th a third time; then every sequence of length 5 over three aircraft
+            let mut orders: Vec<Vec<usize>> = Vec::new();
+            for n in 1..=fleet.len() {
+                let mut o: Vec<usize> = (0..n).collect();
+                o.push(n - 1);
+                o.push(0);
+                o.extend((0..n).rev());
+                o.push(n - 1);
+                orders.push(o);
+            }
+            for code in 0..243usize {
+                orders.push((0..5).map(|d| [0usize, 1, 23][(code / 3usize.pow(d)) % 3]).collect());
+            }
+            for (oi, o) in orders.iter().enumerate() {
+                for (pos, ai) in o.iter().enumerate() {
+                    let a = fleet[*ai];
+                    let t = timed(&kinds[(pos + oi) % kinds.len()](a), true);
+                    let exp = list.contains(&a);
+                    calls += 1;
+                    match guarded(|| Filters::is_in(&f, &t)) {
+                        Err(p) => {
+                            rep.violation(&format!("panic:{}", panic_class(&p)), format!("is_in panicked: {p}"), json!({"stream": true, "list": m, "order": oi, "pos": pos}));
+                            return calls;
+                        }
+                        Ok(got) if got != exp => {
+                            let df = t.frame[0] >> 3;
+                            rep.violation(&format!("stream:DF{df}:wrongly-{}", if got { "kept" } else { "dropped" }), format!("one configuration (aircraft_filter of {m} addresses, df_filter {dff:?}), record {pos} of the stream (address {a:06x}, {}listed): is_in={got}", if exp { "" } else { "not " }), json!({"stream": true, "list": m, "order": oi, "pos": pos}));
+                            return calls;
+                        }
+                        Ok(_) => {}
+                    }
+                }
+            }
+        }
+    }
+    calls
+}
+
 pub fn run(ctx: &Ctx, rep: &Report) {
     let addrs: Vec<u32> = if ctx.thorough() {
         let mut v = vec![0x000000, 0xffffff, 0x000001, 0x800000, 0x4840d6, 0xa00001, 0x3c6444, 0x7fffff];
@@ -217,6 +290,11 @@ pub fn run(ctx: &Ctx, rep: &Report) {
     rep.nontriv(nontriv);
     rep.state(recs.len() as u64 * 2);
     rep.part("filters", cases, json!({"records": recs.len(), "addresses": addrs.len()}));
+    let sc = streams(rep);
+    rep.part("one configuration held for a stream of records (lists of 1..40 addresses, fleets of up to 24 aircraft in many orders)", sc, json!({}));
+    rep.trans(sc);
+    rep.eval(sc);
+    rep.nontriv(sc);
     rep.set_bound(&format!("{} record kinds x {} addresses x decoded/undecoded x 11 df-filter shapes x 25 aircraft-filter shapes (incl. lists of 3 in all 6 orders)", recs.len() / addrs.len(), addrs.len()));
     rep.assume("filter lists are judged by membership only (order and duplicates are not part of the property)");
 }
@@ -226,6 +304,15 @@ fn witness(r: &Rec, decode: bool, dff: &Option<Vec<String>>, acf: &Option<Vec<u3
 }
 
 pub fn replay(w: &Value, rep: &Report) {
+    if w["stream"].as_bool() == Some(true) {
+        // the streams are deterministic: the whole family is run again
+        let n = streams(rep);
+        rep.trans(n);
+        rep.state(1);
+        rep.sample(w.clone());
+        rep.outcome("replayed", 1);
+        return;
+    }
     let frame = unhex(w["frame"].as_str().unwrap_or(""));
     let decode = w["decoded"].as_bool().unwrap_or(true);
     let dff: Option<Vec<String>> = w["df_filter"].as_array().map(|a| a.iter().filter_map(|x| x.as_str().map(String::from)).collect());
